@@ -154,18 +154,6 @@ func (t *traceSum) noteSlot(a addr20, k word32) {
 	}
 }
 
-func (t *traceSum) incomparable() string {
-	switch {
-	case t.oog:
-		return "out-of-gas"
-	case t.excluded:
-		return "excluded-opcode"
-	case t.bigCode:
-		return "max-code-size"
-	}
-	return ""
-}
-
 // create2Addr computes the EIP-1014 address with the checker's own arithmetic (shared by both tracers).
 func create2Addr(creator addr20, salt word32, init []byte) addr20 {
 	h := kcrypto.Keccak256(init)
@@ -236,8 +224,6 @@ var fixedProbe []addr20
 func initProbe() {
 	fixedProbe = []addr20{addrOrigin, addrMain}
 }
-
-func initSlots() {}
 
 const hexdigits = "0123456789abcdef"
 
